@@ -102,3 +102,109 @@ func ruleDecliningParserRestored(w *World, r *Report) {
 	}
 	r.Expect("InlineParser.Parse call sites in a loop", n, 1)
 }
+
+// ---- C11-S ---------------------------------------------------------------------------------------------------
+
+// reaches: is there a CFG path from block a (its end) to block b (its start)? a == b counts only through a cycle.
+func blockReaches(a, b *ssa.BasicBlock) bool {
+	seen := map[*ssa.BasicBlock]bool{}
+	var dfs func(x *ssa.BasicBlock) bool
+	dfs = func(x *ssa.BasicBlock) bool {
+		if x == b {
+			return true
+		}
+		if seen[x] {
+			return false
+		}
+		seen[x] = true
+		for _, s := range x.Succs {
+			if dfs(s) {
+				return true
+			}
+		}
+		return false
+	}
+	for _, s := range a.Succs {
+		if dfs(s) {
+			return true
+		}
+	}
+	return false
+}
+
+// ruleDecliningParserLeavesNoNode: an inline parser that returns nil has not added a node of its own to the parent.
+func ruleDecliningParserLeavesNoNode(w *World, r *Report) {
+	r.Rule("C11-S", "In every InlineParser.Parse of the module, no path leads from a call that adds a node to the `parent` argument (parent.AppendChild / InsertAfter / InsertBefore) to a return of nil: the dispatcher treats nil as 'this parser does nothing here', restores the reader and lets the text through, so a node appended before declining shows up in addition to the untouched text (a doubled '!' in a document that contains no footnote syntax at all).")
+	ipI := w.Iface("parser", "InlineParser")
+	n, nAdds := 0, 0
+	for _, t := range w.Implementers(ipI) {
+		fn := w.MethodOf(t, "Parse")
+		if fn == nil || !w.InModule(fn) || len(fn.Params) < 4 {
+			continue
+		}
+		n++
+		parent := fn.Params[1]
+		// nil-returning exits: (block, pred) pairs
+		type exit struct{ blk, pred *ssa.BasicBlock }
+		var exits []exit
+		for _, b := range fn.Blocks {
+			ret, ok := b.Instrs[len(b.Instrs)-1].(*ssa.Return)
+			if !ok || len(ret.Results) == 0 {
+				continue
+			}
+			switch x := ret.Results[0].(type) {
+			case *ssa.Const:
+				if x.IsNil() {
+					exits = append(exits, exit{b, nil})
+				}
+			case *ssa.Phi:
+				if x.Block() == b {
+					for i, e := range x.Edges {
+						for _, leaf := range phiLeaves(e) {
+							if isNilConst(leaf) {
+								exits = append(exits, exit{b, b.Preds[i]})
+							}
+						}
+					}
+				}
+			}
+		}
+		key := typeShort(t) + ".Parse: nothing added to parent before declining"
+		bad := ""
+		for _, b := range fn.Blocks {
+			for _, ins := range b.Instrs {
+				c, ok := ins.(ssa.CallInstruction)
+				if !ok || !c.Common().IsInvoke() || c.Common().Value != ssa.Value(parent) {
+					continue
+				}
+				switch c.Common().Method.Name() {
+				case "AppendChild", "InsertAfter", "InsertBefore":
+				default:
+					continue
+				}
+				nAdds++
+				for _, e := range exits {
+					target := e.blk
+					if e.pred != nil {
+						target = e.pred
+					}
+					if target == b || blockReaches(b, target) {
+						if e.pred != nil && target == b {
+							// the adding block itself jumps to the nil return
+							bad = w.InstrPos(ins)
+						} else if target != b {
+							bad = w.InstrPos(ins)
+						}
+					}
+				}
+			}
+		}
+		if bad != "" {
+			r.Bad(key, bad, "a node is added to the parent and the parser can still return nil afterwards")
+		} else {
+			r.OK(key, w.FnPos(fn), "no nil return is reachable from a call that adds to parent")
+		}
+	}
+	r.Expect("inline parsers", n, 5)
+	r.Note("C11-S: %d inline parsers, %d calls adding a node to parent", n, nAdds)
+}
